@@ -113,6 +113,11 @@ def _gen_opts(r: Rng, ds: dsdlgen.DsdlSet, lang: typing.Optional[str], fixed: ty
             o["std"] = r.choice(["c++14", "c++17", "c++17-pmr", "c++20"])
         if r.chance(1, 6):
             o["pp_trim"] = True
+        if r.chance(1, 6):
+            # an external post-processor program: listing and dry-run modes must not run it (it edits files)
+            o["pp_prog"] = r.choice([True, "rename"])
+        if r.chance(1, 6):
+            o["file_mode"] = r.choice([0o444, 0o644, 0o600, 0o400])
     o.update(fixed)
     if o.get("support_templates") and lang not in usertpl.SUPPORT_NAME:
         o.pop("support_templates")
@@ -337,6 +342,8 @@ def run_case(case: dict, ctx: dict) -> dict:
                         violation("list-inputs-missing:dsdl-lookup-dependency", dict(brief, missing=miss_d[:5]))
 
     # the seam's own record of what the real run created must agree with the snapshot (sanity of the harness)
+    # (the "rename" style of the fake formatter writes <file>.fmt-tmp and renames it over <file>: not a created file)
+    created_ev = {p for p in created_ev if not p.endswith(".fmt-tmp")}
     if created_ev != created:
         raise proc.HarnessError("recorder and snapshot disagree on created files: %r" % (sorted(created_ev ^ created)[:4],))
 
@@ -385,7 +392,7 @@ def run_case(case: dict, ctx: dict) -> dict:
         res = proc.run_invocation(world.invocation(without_env_lookups(O), enum_seed=enum_seed + 7, **env_plan(O)))
         evaluations += 1
         if nnvg.succeeded(res):
-            written = {os.path.realpath(world.sandbox) + e[2][1:] for e in res["events"] if e[1] == "open-w" and str(e[2]).startswith("@")}
+            written = {os.path.realpath(world.sandbox) + e[2][1:] for e in res["events"] if e[1] == "open-w" and str(e[2]).startswith("@") and not str(e[2]).endswith(".fmt-tmp")}
             if written != created:
                 x = sorted(written ^ created)
                 violation("real-run-set-differs-on-dirty-directory:%s" % nnvg.sig_kind(os.path.relpath(x[0], out_abs)), {"diff": x[:6]})
